@@ -10,7 +10,10 @@ VERIF = Path(__file__).resolve().parent.parent
 sys.path.insert(0, str(VERIF))
 
 NOT_BUILT_REASON = "not claimed yet: model, theorems and correspondence harness for this property are still being built (no technical obstacle; see DESIGN.md §5)"
-NOT_APPLICABLE = {}  # property -> reason, for properties the technique genuinely cannot decide
+NOT_APPLICABLE = {}
+# built but temporarily not claimed (being adapted to a change merged from another property)
+PENDING = {"C05": "temporarily not claimed: the check is being adapted to the repaired integer coercer of const.py (F06a); see design/C05.md",
+           "C08": "temporarily not claimed: the type-table translator is being extended for the repaired integer coercer of const.py (F06a); see design/C08.md"}  # property -> reason, for properties the technique genuinely cannot decide
 
 
 def main() -> None:
@@ -19,6 +22,9 @@ def main() -> None:
     for pid in props:
         hp = VERIF / "harness" / f"{pid.lower()}.py"
         pp = VERIF / "lean" / "Upnp" / "Props" / f"{pid}.lean"
+        if pid in PENDING:
+            na.append({"property_id": pid, "reason": PENDING[pid]})
+            continue
         if pid in NOT_APPLICABLE:
             na.append({"property_id": pid, "reason": NOT_APPLICABLE[pid]})
             continue
